@@ -39,6 +39,7 @@ def plan(tier, seed):
     k2 = 6 if tier == "quick" else 48
     shards += [{"kind": "insitu", "sub": i, "n": 40 if tier == "quick" else 500} for i in range(k2)]
     shards.append({"kind": "fixtures"})
+    shards.append({"kind": "repo-tests", "part": "solver"})
     shards.append({"kind": "pinned"})
     return shards
 
@@ -305,6 +306,10 @@ def worker(ctx, shard):
             solve_direct(ctx, mon, V, inst, "fixtures", Q.topo_order(inst) is None)
     elif kind == "pinned":
         pinned_shard(ctx, mon, V)
+    elif kind == "repo-tests":
+        from props import workload_r
+
+        workload_r.judge(ctx, shard["part"])
     for k, v in mon.events.items():
         ctx.event(k, v)
     for k, v in mon.paths.items():
